@@ -456,6 +456,76 @@ func runC10(r *core.Run) {
 		}
 		r.Sample(map[string]interface{}{"scenario": sc.Name, "sql": sc.SQL, "crash_points": len(ids), "first_points": ids[:minInt(8, len(ids))]})
 	}
+	// ---- the process ended by a signal while committing: tables of every format ------------------------------------
+	// (a signal is not a crash - csvq gets to run its clean-up - but whatever ends the process, every table is complete:
+	// its previous contents or its new ones)
+	{
+		mk := func(row func(i int) string, head, tail string, n int) string {
+			var b strings.Builder
+			b.WriteString(head)
+			for i := 0; i < n; i++ {
+				b.WriteString(row(i))
+			}
+			b.WriteString(tail)
+			return b.String()
+		}
+		type fsc struct{ file, content string }
+		fscs := []fsc{
+			{"t.jsonl", mk(func(i int) string { return fmt.Sprintf("{\"id\":%d,\"n\":0}\n", i) }, "", "", 40)},
+			{"t.ltsv", mk(func(i int) string { return fmt.Sprintf("id:%d\tn:0\n", i) }, "", "", 40)},
+			{"t.tsv", mk(func(i int) string { return fmt.Sprintf("%d\t0\n", i) }, "id\tn\n", "", 40)},
+			{"t.csv", mk(func(i int) string { return fmt.Sprintf("%d,0\n", i) }, "id,n\n", "", 40)},
+			{"t.json", "[" + strings.TrimSuffix(mk(func(i int) string { return fmt.Sprintf("{\"id\":%d,\"n\":0},", i) }, "", "", 40), ",") + "]\n"},
+		}
+		for _, f := range fscs {
+			sc := binScenario{Name: "sig." + f.file, Tables: map[string]string{f.file: f.content}, SQL: "UPDATE `" + f.file + "` SET n = n + 1;\nCOMMIT;\n"}
+			dir, res, points := runScenario(r, sc, nil, true)
+			if res.Exit != 0 || res.IsFatal() {
+				core.Fail("reference run of scenario %s failed: exit=%d %s", sc.Name, res.Exit, res.Stderr)
+			}
+			newC := sut.Snapshot(filepath.Join(dir, "repo"))[f.file]
+			_ = os.RemoveAll(dir)
+			var ids []string
+			started := false
+			for _, p := range points {
+				if p.Point == "tx.commit.begin" {
+					started = true
+				}
+				if started && p.Point != "signal.seen" {
+					ids = append(ids, p.ID)
+				}
+			}
+			whats := make([]string, len(ids))
+			core.Parallel(len(ids), 8, func(i int) {
+				sub := sc
+				sub.Name = fmt.Sprintf("%s.%d", sc.Name, i)
+				sig := []string{"TERM", "INT", "QUIT"}[i%3]
+				d, rs, _ := runScenario(r, sub, []string{"VERIF_SIGNAL_AT=" + ids[i] + ":" + sig}, true)
+				defer os.RemoveAll(d)
+				now, ok := sut.Snapshot(filepath.Join(d, "repo"))[f.file]
+				switch {
+				case rs.IsFatal():
+					whats[i] = "internal failure: " + firstLine(rs.Stderr)
+				case !ok:
+					whats[i] = "the table does not exist any more"
+				case now != f.content && now != newC:
+					whats[i] = fmt.Sprintf("the table holds neither its old nor its new contents (%d bytes; old %d, new %d; exit %d)", len(now), len(f.content), len(newC), rs.Exit)
+				}
+				if whats[i] != "" {
+					whats[i] = fmt.Sprintf("%s ended by SIG%s at %s: %s", sc.SQL, sig, ids[i], whats[i])
+				}
+			})
+			for i, w := range whats {
+				total++
+				r.Distinct(sc.Name + "|" + ids[i])
+				if w != "" {
+					r.Violation("signal:table-torn:"+strings.TrimPrefix(filepath.Ext(f.file), "."), w, map[string]interface{}{"scenario": sc.Name, "sql": sc.SQL, "signal_at": ids[i]})
+					break
+				}
+			}
+			r.Count("signal_during_commit_runs", len(ids))
+		}
+	}
 	// ---- generated scenarios (thorough): several tables in several formats, statement mixes, commits anywhere ----
 	if r.Thorough {
 		nsc := 500
